@@ -99,7 +99,7 @@ def only_functions(res, prefixes):
 
 def c01(m, tier):
     return _pair(m, [LDG], ['F-PAIR.N', 'F-PAIR.S'], {'F-PAIR.N': 15, 'F-PAIR.S': 2}) + [
-        rules_struct.rule_insertion_guard(m), rules_struct.rule_hasedge(m), rules_struct.rule_full_loops(m),
+        rules_struct.rule_insertion_guard(m), rules_struct.rule_hasedge(m), rules_struct.rule_full_loops(m, [LDG]),
         rules_struct.rule_observers(m), rules_decl.rule_encapsulation(m), rules_struct.rule_bulk_complete(m),
         rules_struct.rule_forwarding(m), rules_struct.rule_observer_loops(m)]
 
@@ -107,14 +107,15 @@ def c01(m, tier):
 def c02(m, tier):
     return _pair(m, [LUG], ['F-PAIR.M', 'F-PAIR.N', 'F-KEY'], {'F-PAIR.M': 10, 'F-PAIR.N': 10, 'F-KEY': 7}) + [
         rules_struct.rule_ordered_edge(m), rules_struct.rule_selfloop_convention(m), rules_struct.rule_insertion_guard(m),
-        rules_struct.rule_hasedge(m), rules_struct.rule_full_loops(m), rules_struct.rule_observers(m),
+        rules_struct.rule_hasedge(m), rules_struct.rule_full_loops(m, [LUG]), rules_struct.rule_observers(m),
         rules_decl.rule_encapsulation(m), rules_struct.rule_bulk_complete(m), rules_struct.rule_observer_loops(m)]
 
 
 def c03(m, tier):
     return _pair(m, None, ['F-PAIR.L', 'F-KEY'], {'F-PAIR.L': 30, 'F-KEY': 15}) + [
         rules_struct.rule_label_writes(m, coherent_store=True), rules_val.rule_getlabel(m), rules_struct.rule_hasedge(m),
-        rules_struct.rule_insertion_guard(m), rules_struct.rule_label_subscripts(m), rules_struct.rule_bulk_complete(m)]
+        rules_struct.rule_insertion_guard(m), rules_struct.rule_label_subscripts(m), rules_struct.rule_bulk_complete(m),
+        rules_struct.rule_full_loops(m, [LDG, LUG])]
 
 
 def c04(m, tier):
@@ -123,7 +124,7 @@ def c04(m, tier):
         rules_struct.rule_positive_multiplicity(m), rules_struct.rule_insertion_guard(m),
         rules_struct.rule_observers(m), rules_struct.rule_selfloop_convention(m), rules_struct.rule_label_writes(m),
         rules_struct.rule_bulk_complete(m), rules_struct.rule_setters(m),
-        rules_struct.rule_forwarding(m), rules_struct.rule_observer_loops(m)]
+        rules_struct.rule_forwarding(m), rules_struct.rule_observer_loops(m), rules_struct.rule_full_loops(m, [DMG, UMG])]
 
 
 def c05(m, tier):
@@ -132,7 +133,7 @@ def c05(m, tier):
         rules_struct.rule_insertion_guard(m), rules_struct.rule_observers(m), rules_struct.rule_label_writes(m),
         rules_decl.rule_encapsulation(m), rules_val.rule_getlabel(m), rules_struct.rule_bulk_complete(m),
         rules_struct.rule_setters(m), rules_struct.rule_label_subscripts(m), rules_struct.rule_forwarding(m),
-        rules_struct.rule_observer_loops(m)]
+        rules_struct.rule_observer_loops(m), rules_struct.rule_full_loops(m, [DWG, UWG])]
 
 
 def c06(m, tier):
@@ -181,7 +182,7 @@ def c17(m, tier):
     wl, bound, heap = rules_wl.run_searches(m, {'S-LC'})
     heap.require_sites(3, 'heap facts')
     return [rules_ts.rule_typestate(m), heap, rules_io.rule_checked_read(m), rules_val.rule_val(m, val_engine(m)),
-            rules_xport.rule_idx(m), rules_io.rule_wrap(m), rules_io.rule_tokeniser_access(m)]
+            rules_xport.rule_idx(m), rules_io.rule_wrap(m), rules_io.rule_tokeniser_access(m), rules_decl.rule_init(m)]
 
 
 def c11(m, tier):
